@@ -285,7 +285,6 @@ func trunc(b []byte) []byte {
 
 // compareDocs walks Root and Info of both documents.
 func compareDocs(ca, cb *model.Context) (diffs []string, nStr, nStm int) {
-	defer func() { baselineLostTotal += 0 }()
 	d := &differ{ca: ca, cb: cb, seen: map[pairKey]bool{}}
 	if ca.Root == nil || cb.Root == nil {
 		return []string{"missing root"}, 0, 0
